@@ -8,7 +8,7 @@ props=$(python3 -c "import json;print(' '.join(c['property_id'] for c in json.lo
 if [ -n "$(git -C /repo status --porcelain)" ]; then echo "/repo is not clean"; exit 2; fi
 for id in $ids; do
   d=seeded/$id
-  git -C /repo apply $d/patch.diff || { echo "$id: patch does not apply"; continue; }
+  git -C /repo apply /verif/$d/patch.diff || { echo "$id: patch does not apply"; continue; }
   : > /tmp/seeded_$id.txt
   for p in $props; do
     out=$(bin/sgcheck -property $p -tier quick -no-evidence 2>&1); rc=$?
